@@ -505,6 +505,12 @@ def c02_jobs(tier, seed):
         for (b, r, u) in settings:
             for d in ((1, 2) if tier == "quick" else (1, 2, 3, 12)):
                 J.append(bwd_job(d, pr, "fb", tier, {"bwd": b, "refine": r, "refined": u}))
+    # (3) checker interleaved with the top-down inter-procedural analysis (inter harness, run_checker=true)
+    for pr in INTER_PROGS:
+        for rec in ((0, 1) if pr in ("rec", "mutual") else (0,)):
+            j = inter_job(pr, INTER_SYM[pr][-1], 1, rec=rec, only="verdicts")
+            j.what = "inter-procedural checker verdicts: " + j.what
+            J.append(j)
     return J
 
 
@@ -513,7 +519,7 @@ PROPS["C02"] = dict(
     explanation="intra_checker + assert_property_checker run on (1) the forward analysis and (2) intra_forward_backward_analyzer (every fwd_bwd parameter setting: backward on/off, refinement iterations, refined invariants) over the program family with symbolic constants; "
                 "for every assertion the reference interpreter reaches: verdict SAFE implies the assertion's condition holds on that execution, verdict UNREACHABLE implies it is never reached - decided by z3 for all values on every path.",
     bounds={"quick": "16 skeletons x {intervals, zones, flat Boolean x intervals} (forward) and 12 skeletons x 4 fwd_bwd settings x {intervals, zones} (forward+backward); <= 3 symbolic constants; executions of <= 14 block visits", "thorough": "all 16 fwd_bwd settings, more domains"},
-    outside=["checker interleaved with the inter-procedural analyses (C09/C10 harnesses)", "reference assertions (assert_ref)", "programs outside the family"],
+    outside=["checker of the bottom-up analyzer", "reference assertions (assert_ref)", "programs outside the family"],
     assumptions=E2_ASSUME)
 
 # ---------------------------------------------------------------- C17 (transformations), C18 (liveness, assertion crawler)
@@ -702,4 +708,87 @@ PROPS["C14"] = dict(
     bounds={"quick": "arrays of 1 and 3 cells of 4 bytes; 16 curated + 20 generated histories (<= 9 operations); array_adaptive<intervals> under 5 parameter settings for the curated histories, one setting otherwise; is_strong_update only for one-cell arrays (the documented contract)",
             "thorough": "1-4 cells, 400 generated histories, all parameter settings on both adaptive domains"},
     outside=["arrays with non-uniform element sizes (outside the documented word-level assumption)", "arrays of more than 4 cells", "Boolean arrays, arrays inside regions", "backward array operations"],
+    assumptions=E2_ASSUME)
+
+# ---------------------------------------------------------------- C09 (top-down inter), C10 (bottom-up + top-down)
+INTER_PROGS = ["call1", "overwrite", "twice", "rec", "mutual", "loopcall", "absf"]
+INTER_SYM = dict(call1=["0,1"], overwrite=["0,1"], twice=["1,2", "0,3"], rec=["0,1", "0,2", "1,2"], mutual=["0,1", "0,2"], loopcall=["0,1"], absf=["0,1"])
+
+
+def inter_job(prog, sym, dom=1, bu=None, budget=400, **kw):
+    args = {"prog": prog, "sym": sym}
+    args.update(kw)
+    defs = ("DOM=%d" % dom,) + (("BU=%d" % bu,) if bu else ())
+    what = "%s on %s, %s, %s" % ("bottom_up_inter_analyzer" if bu else "top_down_inter_analyzer", prog, DOMS[dom][0],
+                                 " ".join("%s=%s" % kv for kv in sorted(kw.items())) or "default parameters")
+    if bu:
+        what += ", summary domain %s" % ("intervals" if bu == 1 else "zones")
+    return Job("inter", args, defines=defs, budget=budget, what=what, witnesses=1)
+
+
+def c09_jobs(tier, seed):
+    J = []
+    doms = (1, 2) if tier == "quick" else (1, 2, 12, 5)
+    for d in doms:
+        for pr in INTER_PROGS:
+            syms = INTER_SYM[pr] if (d == 1 or tier != "quick") else INTER_SYM[pr][:1]
+            for sym in syms:
+                recs = (0, 1) if pr in ("rec", "mutual") else (0,)
+                for rec in recs:
+                    J.append(inter_job(pr, sym, d, rec=rec))
+        # bounded calling contexts, approximate reuse, widening parameters
+        J.append(inter_job("twice", "1,2", d, ctx=1))      # known finding F23
+        J.append(inter_job("twice", "1,2", d, ctx=2))
+        J.append(inter_job("twice", "1,2", d, ctx=3, exact=0))
+        J.append(inter_job("twice", "0,3", d, exact=0))
+        J.append(inter_job("call1", "0,1", d, ctx=1, exact=0))
+        J.append(inter_job("loopcall", "0,1", d, exact=0))
+        J.append(inter_job("loopcall", "0,1", d, wd=2, di=0))
+        J.append(inter_job("rec", "0,2", d, rec=1, wd=2, di=0))
+        J.append(inter_job("mutual", "0,2", d, rec=1, ctx=2))
+        # nested recursive components  main (f1 (f2 g)); deeper executions are needed to return from f1(4)
+        for (sym, rec) in (("", 1), ("0", 1), ("0,2", 0)):
+            if d == 1 or sym == "":
+                J.append(inter_job("nest3", sym, d, rec=rec, blocks=150, depth=6))
+    if tier == "thorough":
+        for pr in INTER_PROGS:
+            for sym in INTER_SYM[pr]:
+                for ctx in (2, 3):
+                    for ex in (0, 1):
+                        for rec in ((0, 1) if pr in ("rec", "mutual") else (0,)):
+                            J.append(inter_job(pr, sym, 1, ctx=ctx, exact=ex, rec=rec, wd=2, di=2))
+    return J
+
+
+PROPS["C09"] = dict(
+    jobs=c09_jobs,
+    explanation="The real top_down_inter_analyzer (call_graph, restrict/extend at call sites, calling-context table with exact/approximate reuse and the bound on contexts, recursion handling, wto of every function) is run on a family of call graphs whose constants are symbolic; "
+                "the reference interpreter, extended with call/return semantics, executes main with nondeterministic choices and symbolic values; z3 decides for every block visit of every function that the state lies in gamma_obs of the context-insensitive invariant of the block, and for every returning call and every stored (pre, post) summary of the callee that pre(inputs) implies post(inputs, outputs).",
+    bounds={"quick": "8 call graphs (one call, output overwriting an argument and shared variable names, three calls with different contexts, direct recursion, mutual recursion, three functions in nested recursive components, call inside a loop, callee with branches), 2 symbolic constants each, intervals and zones, max_call_contexts in {1,2,3,unbounded}, exact and approximate reuse, precise and imprecise recursion, two widening settings; executions of <= 40 block visits and call depth <= 5 (150 / 6 for the nested components)",
+            "thorough": "+ intervals x zones product, octagons, every (ctx, exact, rec) combination on intervals"},
+    outside=["call graphs outside the family", "array and reference arguments", "several entry functions (only_main_as_entry=false)", "max_call_contexts=1 with three different contexts (known finding F23) and functions whose recursion never returns under analyze_recursive_functions=true (known finding F24)"],
+    assumptions=E2_ASSUME)
+
+
+def c10_jobs(tier, seed):
+    J = []
+    pairs = [(1, 2), (2, 1), (1, 1)] if tier == "quick" else [(1, 2), (2, 1), (1, 1), (2, 2), (12, 2), (5, 1)]
+    for (d, bu) in pairs:
+        for pr in INTER_PROGS:
+            syms = INTER_SYM[pr] if (d, bu) == (1, 2) or tier != "quick" else INTER_SYM[pr][:1]
+            for sym in syms:
+                J.append(inter_job(pr, sym, d, bu))
+        J.append(inter_job("loopcall", "0,1", d, bu, wd=2, di=0))
+        J.append(inter_job("twice", "0,3", d, bu, wd=2, di=2))
+        J.append(inter_job("nest3", "0", d, bu, blocks=150, depth=6))
+    return J
+
+
+PROPS["C10"] = dict(
+    jobs=c10_jobs,
+    explanation="The real bottom_up_inter_analyzer<CG, BU_Dom, TD_Dom> (bottom-up summaries in topological order of the SCC graph, summary instantiation at call sites with renaming and projection, top-down phase with call-context table) is run on the call-graph family with symbolic constants and with different summary and invariant domains; "
+                "the reference interpreter executes main; z3 decides for every returning concrete call that the (inputs, outputs) pair lies in the stored summary of the callee and for every block visit that the state lies in the reported invariant of the block.",
+    bounds={"quick": "8 call graphs x (summary domain, invariant domain) in {(zones, intervals), (intervals, zones), (intervals, intervals)}, 2 symbolic constants, two fixpoint settings; recursive components are analysed without summaries (as the analyzer documents) and are checked for the top-down invariants; executions of <= 40 block visits, call depth <= 5",
+            "thorough": "+ (zones, zones), (zones, intervals x zones), (intervals, octagons)"},
+    outside=["call graphs outside the family", "array and reference arguments", "summaries of functions in recursive components (the analyzer computes none)"],
     assumptions=E2_ASSUME)
